@@ -57,14 +57,17 @@ class Prop(PropBase):
                             # jumbo: trailing sub packets with a wrong identifier (rejected) carry other temperatures than the accepted ones
                             bad = tuple(range(rng.randrange(30, 63), 63)) if (l.jumbo and rng.random() < 0.7) else ()
                             return scen.mems_msop(rng, l, st['seq'], bad_subs=bad)
-                    for k in range(rng.choice([4, 5])):
-                        ev = 'difop' if k in (1, 3) else rng.choice(['msop', 'msop', 'difop', 'bad', 'msop'])      # every scenario sees two DIFOP packets with different contents
-                        sn = [rng.randrange(256) for _ in range(6)]
+                    sn_first = [rng.randrange(256) for _ in range(6)]
+                    for k in range(6):
+                        # every scenario sees three DIFOP packets: the second has the serial number of the first and another MAC address /
+                        # other versions / another voltage, the third another serial number: the last accepted packet is what is reported
+                        ev = 'difop' if k in (1, 3, 5) else rng.choice(['msop', 'msop', 'difop', 'bad', 'msop'])
+                        sn = sn_first if k in (1, 3) else [rng.randrange(256) for _ in range(6)]
                         if ev == 'msop':
                             s.pkt(0, mk())
                         elif ev == 'difop':
                             kd, vert, horiz, raw = scen.cali_table(rng, l, 'valid') if l.mech else (None, None, None, None)
-                            d = bytearray(l.difop(dual=dual, vert=vert, horiz=horiz, raw_cali=raw, rng=rng if rng.random() < 0.8 else None, sn=sn))
+                            d = bytearray(l.difop(dual=dual, vert=vert, horiz=horiz, raw_cali=raw, rng=rng if (k in (1, 3) or rng.random() < 0.8) else None, sn=sn))
                             s.pkt(0, bytes(d))
                         else:
                             kind, bad = scen.malformed(rng, l, mk(), l.difop())
